@@ -57,7 +57,7 @@ ASSUMPTIONS = [
     "comments are compared modulo trailing blanks / carriage return",
     "for reset_index=True the root is the first row (the documented layout)",
 ]
-REQUIRED = ["second_population_reads_after_edits", "grammar_reads", "rows_compared", "comments_compared", "ignored_field_warnings",
+REQUIRED = ["second_population_reads_after_edits", "callers_name_list_edited_after_construction", "grammar_reads", "rows_compared", "comments_compared", "ignored_field_warnings",
             "texts_with_the_writers_column_banner", "texts_with_block_sized_row_counts",
             "population_files_with_undecodable_bytes", "separators_other_than_blank_and_tab",
             "extra_cols_as_one_shot_iterables", "options_given_by_position",
@@ -585,7 +585,18 @@ def check_population(ctx, case, tmp):
     with warnings.catch_warnings():
         warnings.simplefilter("ignore")
         try:
-            pop = Population.from_swc(d)
+            if case["seed"] % 4 == 1:
+                # built from the caller's own list of file names, which the caller then goes on
+                # to use (reversed, emptied): the population still reads the files it was given
+                from swcgeom.core.population import LazyLoadingTrees
+
+                mine = list(Population.find_swcs(d))
+                pop = Population(LazyLoadingTrees(mine), root=d)
+                mine.reverse()
+                mine.clear()
+                ctx.count("callers_name_list_edited_after_construction")
+            else:
+                pop = Population.from_swc(d)
         except Exception:
             # construction probes the first file; failing there is also failing loudly
             ctx.count("population_reads")
